@@ -105,7 +105,9 @@ def gen_scenario(rng, frontend):
     for e in out:
         if e['kind'] in ('data', 'dataf') and rng.random() < 0.3:
             e['lp'] = True          # delivered inside a link-layer envelope (transparent)
-    return {'frontend': frontend, 'ints': ints, 'datas': datas, 'events': out, 'shared_param': rng.random() < 0.25}
+        if e['kind'] == 'data' and rng.random() < 0.2:
+            e['wide'] = True
+    return {'frontend': frontend, 'ints': ints, 'datas': datas, 'events': out, 'shared_param': rng.random() < 0.25, 'shared_validators': rng.random() < 0.5}
 
 
 # ------------------------------------------------------------------ model
@@ -294,6 +296,7 @@ class Run:
         self.probe = {}
         self.pit_left = None
         self.data_wires = []
+        self.data_wires_wide = []
         self.data_digest = []
         self.int_wires = {}
         self.express_errors = {}
@@ -318,6 +321,10 @@ def execute(sc):
         w = bytes(make_data(NAMES[d['name']], MetaInfo(), b'D%d' % d['id'], DigestSha256Signer()))
         R.data_wires.append(w)
         R.data_digest.append(hashlib.sha256(w).digest())
+        # the same Data as another producer may encode it: integers (ContentType, SignatureType) in a wider legal width
+        with rc.widened(1 + d['id'] % 3):
+            R.data_wires_wide.append(rc.make_data(NAMES[d['name']], content=b'D%d' % d['id'], content_type=0, sig_type=0,
+                                                  sign=lambda b: hashlib.sha256(b).digest()))
 
     async def main(S):
         face = RecFace()
@@ -337,7 +344,19 @@ def execute(sc):
         other_main = asyncio.ensure_future(other.main_loop())
         await asyncio.sleep(0)
 
+        vcache = {}
+
         def make_validator(it):
+            # applications commonly pass ONE validator object for all their Interests: Interests that are equal in every argument
+            # are still separate Interests
+            if sc.get('shared_validators'):
+                key_ = (it['verdict'], it['lat'])
+                if key_ not in vcache:
+                    vcache[key_] = make_validator_obj(it)
+                return vcache[key_]
+            return make_validator_obj(it)
+
+        def make_validator_obj(it):
             if fe == 'v2':
                 async def v(name, sig, ctx):
                     R.validator_log.append((it['id'], 'call', S.now_ms()))
@@ -432,6 +451,8 @@ def execute(sc):
             elif k == 'data':
                 try:
                     dw = R.data_wires[e['d']]
+                    if e.get('wide') and not any(it.get('digest') not in (None, 'bogus') for it in sc['ints']):
+                        dw = R.data_wires_wide[e['d']]          # (not when an Interest names the packet by its hash)
                     await face.deliver(rc.make_lp(fragment=dw, headers=[(0x340, b'\x01')]) if e.get('lp') else dw)
                 except Exception as ex:   # noqa
                     R.receive_errors.append(('data', e, ex))
@@ -609,6 +630,8 @@ def judge(ctx, sc, R, S):
     ctx.case(sig, nontrivial=overlap > 0, sample=sc if ctx.evaluations % 400 == 3 else None)
     for gk, _ in order:
         ctx.event('outcome-' + gk)
+    if any(e.get('wide') for e in sc['events']):
+        ctx.event('data-with-wide-integers')
     for it in sc['ints']:
         if it.get('aw'):
             ctx.event('awaited-later-than-expressed')
@@ -629,7 +652,7 @@ def template_scenarios(rng, fe):
     def sc(ints, datas, extra):
         evs = [{'t': it['te'], 'kind': 'express', 'i': it['id']} for it in ints] + extra
         evs.sort(key=lambda e: e['t'])
-        return {'frontend': fe, 'ints': ints, 'datas': datas, 'events': evs}
+        return {'frontend': fe, 'ints': ints, 'datas': datas, 'events': evs, 'shared_validators': rng.random() < 0.6}
     L = rng.choice([50, 100, 200])
     d = rng.choice([1, 5, L // 2, L - 1])
     out = []
@@ -638,6 +661,11 @@ def template_scenarios(rng, fe):
         ev = [{'t': d, 'kind': 'cancel', 'i': rng.choice([0, 1])}]
         ev.append({'t': d + rng.choice([0, 1, 10]), 'kind': 'nack', 'i': 0, 'reason': 150} if kind == 'nack' else {'t': d + rng.choice([0, 1, 10]), 'kind': 'data', 'd': 0})
         out.append(('cancel-then-' + kind, sc([I(0, 'ab', L=L), I(1, 'ab', L=L + rng.choice([0, 50]))], [{'id': 0, 'name': 'ab'}], ev)))
+    # T2b: two Interests equal in every argument; the one expressed later ends first (shorter lifetime / cancelled): the other lives on
+    out.append(('equal-interests-second-ends-first', sc([I(0, 'ab', L=L * 4), I(1, 'ab', te=5, L=L)], [{'id': 0, 'name': 'ab'}],
+                                                        [{'t': L * 2, 'kind': 'data', 'd': 0}])))
+    out.append(('equal-interests-second-cancelled', sc([I(0, 'ab', L=L * 4), I(1, 'ab', te=5, L=L * 3)], [{'id': 0, 'name': 'ab'}],
+                                                       [{'t': 5 + d, 'kind': 'cancel', 'i': 1}, {'t': L * 2, 'kind': 'data', 'd': 0}])))
     # T3: Data claimed, validator outlives the lifetime, the same name is expressed again meanwhile
     te2 = d + rng.choice([1, L // 2])
     out.append(('reexpress-while-validating', sc([I(0, 'ab', L=L, lat=L * 3), I(1, 'ab', te=te2, L=L * 4)], [{'id': 0, 'name': 'ab'}],
@@ -711,10 +739,10 @@ def run(ctx):
             R, S = execute(sc)
             judge(ctx, sc, R, S)
         ctx.extra['exhaustive_subspace'] = f'all ordered selections of 1..3 events from 5 (Data, 2 Nacks, 2 cancels) over 2 Interests x 2 name pairs x CanBePrefix x 2 front-ends: {len(space)} scenarios'
-    for lab in ('face-lost', 'late-await-data', 'late-await-nothing', 'late-await-nack', 'cancel-then-nack', 'cancel-then-data', 'reexpress-while-validating', 'tie-data-at-deadline', 'one-data-many-interests',
+    for lab in ('equal-interests-second-ends-first', 'equal-interests-second-cancelled', 'face-lost', 'late-await-data', 'late-await-nothing', 'late-await-nack', 'cancel-then-nack', 'cancel-then-data', 'reexpress-while-validating', 'tie-data-at-deadline', 'one-data-many-interests',
                 'shutdown-mixed', 'nack-for-prefix-of-pending', 'verdicts-differ', 'implicit-digest'):
         ctx.need_class('template:' + lab)
-    for k in ('outcome-data', 'outcome-timeout', 'outcome-nack', 'outcome-cancel', 'outcome-valfail', 'validator-calls', 'awaited-later-than-expressed', 'other-application-unaffected', 'signed-interest-without-parameters'):
+    for k in ('outcome-data', 'outcome-timeout', 'outcome-nack', 'outcome-cancel', 'outcome-valfail', 'validator-calls', 'awaited-later-than-expressed', 'other-application-unaffected', 'signed-interest-without-parameters', 'data-with-wide-integers'):
         ctx.need_event(k)
     ctx.assumptions = ['exact ties (packet / validator completion / deadline in the same millisecond) accept either order',
                        'Data arrived in time but validator slower than the deadline: Data/ValidationFailure at validator completion or timeout at the deadline are both accepted here (C05 decides that clause)',
